@@ -317,6 +317,11 @@ class Implements(NameAndModuleComparisonMixin,
     # another place to store this without taking space unless needed.
     _super_cache = None
 
+    # The object (normally a class) whose ``__implemented__`` this is.
+    # ``inherit`` is cleared by ``classImplementsOnly`` and is not set for
+    # non-class factories, so the pickle reference is kept separately.
+    _spec_of = None
+
     __name__ = '?'
 
     @classmethod
@@ -352,7 +357,10 @@ class Implements(NameAndModuleComparisonMixin,
         return f'classImplements({name}{declared_names})'
 
     def __reduce__(self):
-        return implementedBy, (self.inherit, )
+        ob = self._spec_of
+        if ob is None:
+            ob = self.inherit
+        return implementedBy, (ob, )
 
 
 def _implements_name(ob):
@@ -493,6 +501,7 @@ def implementedBy(
         spec = Implements.named(spec_name, *[implementedBy(c) for c in bases])
         spec.inherit = cls
 
+    spec._spec_of = cls
     try:
         cls.__implemented__ = spec
         if not hasattr(cls, '__providedBy__'):
@@ -688,6 +697,7 @@ class implementer:
 
         spec_name = _implements_name(ob)
         spec = Implements.named(spec_name, *self.interfaces)
+        spec._spec_of = ob
         try:
             ob.__implemented__ = spec
         except AttributeError:
